@@ -116,7 +116,11 @@ class PITFrozenTimestepMasker(PITTimestepMasker):
             rf,
             trainable=False,
         )
-        self.beta.requires_grad = False
+        # a frozen mask is a constant: it is stored as a buffer, so that it is never listed among
+        # the (NAS) parameters and can neither become trainable nor receive gradients
+        beta = self.beta.detach()
+        del self.beta
+        self.register_buffer('beta', beta)
 
     @property
     def trainable(self) -> bool:
